@@ -49,6 +49,9 @@ func (g *Gen) havocVal(v ssa.Value, st *State) Term {
 
 func (g *Gen) safety(kind string, in ssa.Instruction, goal Term) {
 	g.rootGen().deferObl("safety", kind, g.reach[g.curBlock], goal, "")
+	// execution continues past this point only if the check passed (otherwise
+	// the program panics and no postcondition applies): assert-then-assume
+	g.assert(fmt.Sprintf("(=> %s %s)", g.reach[g.curBlock], goal))
 }
 
 var srcLines = map[string][]string{}
